@@ -140,13 +140,31 @@ func genHistory(r *vh.Rng, cfg Cfg, o histOpts) *history {
 	h.files = append(h.files, file)
 	h.fileCfg[file] = cfg
 	off := uint32(120 + r.Intn(20))
+	// bigOffsets: offsets in the upper half of the 32-bit range, in one of three shapes - the whole file just below
+	// 2^32; a file that walks across 2^31; or small offsets with one event (a huge transaction) that ends 2^31 bytes
+	// or more after the one before it
+	bigMode, jumpLeft := 0, 0
+	var bq *vh.Rng
 	if o.bigOffsets {
-		off = 0xfff00000 + uint32(r.Intn(1000))
+		bq = r.Side()
+		bigMode = bq.Intn(3)
+		switch bigMode {
+		case 0:
+			off = 0xfff00000 + uint32(r.Intn(1000))
+		case 1:
+			off = 0x7fffff00 - uint32(bq.Intn(600))
+		case 2:
+			jumpLeft = 1
+		}
 	}
 	ts := uint32(1500000000 + r.Intn(1000))
 	unit := 0
 	add := func(kind string, body vh.Val, t *tableDef, rd *rowsDef) int {
 		ln := uint32(30 + r.Intn(200))
+		if jumpLeft > 0 && off < 0x10000000 && bq.Chance(1, 4) {
+			ln += 0x80000000 + uint32(bq.Intn(0x60000000))
+			jumpLeft--
+		}
 		e := hEvent{kind: kind, body: body, file: file, start: off, next: off + ln, ts: ts, unit: unit, table: t, rows: rd, cfg: cfg}
 		off += ln
 		ts += uint32(r.Intn(3))
@@ -359,6 +377,9 @@ func genHistory(r *vh.Rng, cfg Cfg, o histOpts) *history {
 			file = nf
 			h.files = append(h.files, nf)
 			off = uint32(120 + r.Intn(20))
+			if bigMode == 2 {
+				jumpLeft = 1
+			}
 			// the master then sends a fake rotate and the new file's format description
 			// (the artificial rotate is written while the sender still uses the old file's checksum setting)
 			h.events = append(h.events, hEvent{kind: "fakerotate", body: vh.L(vh.A("rotate"), vh.I(4), vh.X([]byte(nf))), file: nf, start: 4, next: 0, ts: 0, unit: u, cfg: oldCfg})
